@@ -452,4 +452,27 @@ PROPS = {
         "assumptions": ["inputs <= 12 KB (quick) / 60 KB (thorough)"],
         "real": LZ_REAL, "stub": LZ_STUB + ["the judge: model/refbcj"],
     },
+
+    "C19": {
+        "engine": "xzsim",
+        "level": "exploration",
+        "runs": {"quick": [12000], "thorough": [150000]},
+        "level_text": "Real xz processes on scratch directories (as root in the sandbox) with: hostile file names (spaces, leading dash, "
+                      "newline, quotes and shell metacharacters, non-ASCII, names that already carry .xz/.txz/.lzma/.tlz/.lz, 160-byte "
+                      "names) x formats xz/lzma x custom suffixes incl. dot-less ones, each compressed and then decompressed (two "
+                      "steps in one case); existing targets with and without --force; directories, FIFOs, symbolic links, files "
+                      "with two hard links and setuid/setgid/sticky files with no flag, -f, -k, -c; sources with 13 permission "
+                      "patterns, foreign owner/group and old timestamps; shim faults: fchown(uid) / fchown(gid) / fchmod / futimens "
+                      "returning EPERM and a simulated non-root effective uid (the only way to reach the restricted-permission "
+                      "branch here); exit-status scenarios. Oracle: a model of the rules in the statement, written from xz(1), "
+                      "evaluated on the directory before and after: target name and its inverse (with the documented precedence of "
+                      "a longer built-in suffix), skip rules, never overwrite without --force, refusal of links/special files, mode "
+                      "never broader than the source and without special bits (exact restricted formula when the group cannot be "
+                      "set), owner/group/mtime copied when permitted, -k/-c keep the source, exit status 0/1/2.",
+        "level_note": "Low simulation content: the naming clauses are a pure function of (name, suffix, format); simulation contributes the "
+                      "metadata system-call failures and the simulated uid.",
+        "rule": "One evaluation = one xz invocation (two for naming round trips). distinct_nontrivial = distinct (rule family, "
+                "parameters) tuples: (name, format, suffix), (direction, force), (special kind, flag), (mode, owner, fault), ...",
+        "assumptions": ["runs as root on tmpfs: chown to arbitrary ids works unless the shim says otherwise"],
+    },
 }
